@@ -133,4 +133,37 @@ Section Rounding.
       apply Qmult_le_compat_r; [exact G|apply Qlt_le_weak; exact Hip]. }
     lra.
   Qed.
+
+  (* descending data: high_v <= value <= low_v.  IEEE rounding is odd and a function of the value *)
+  Hypothesis rnd_proper : forall x y, x == y -> rnd x == rnd y.
+  Hypothesis rnd_odd : forall x, rnd (- x) == - rnd x.
+
+  Theorem framenum_rounding_bound_desc (L spf : Z) (value lv hv : Q) :
+    (0 < spf)%Z -> hv <= value -> value <= lv -> hv < lv ->
+    let t := (value - lv) / (hv - lv) in
+    let s := rnd (inject_Z L + rnd (rnd (value - lv) / rnd (hv - lv))) in
+    let r := rnd (s / inject_Z spf) in
+    Qabs (r - (inject_Z L + t) / inject_Z spf) <= u * (3 * Qabs (inject_Z L) + 11) / inject_Z spf.
+  Proof.
+    intros Hs H1 H2 H3 t s r.
+    pose proof (framenum_rounding_bound L spf (- value) (- lv) (- hv) Hs ltac:(lra) ltac:(lra) ltac:(lra)) as Bd.
+    cbv zeta in Bd.
+    assert (Ea : rnd (- value - - lv) == - rnd (value - lv)).
+    { rewrite <- rnd_odd. apply rnd_proper. ring. }
+    assert (Eb : rnd (- hv - - lv) == - rnd (hv - lv)).
+    { rewrite <- rnd_odd. apply rnd_proper. ring. }
+    assert (Nb : ~ rnd (hv - lv) == 0).
+    { intro Z0. destruct (rnd_pos (lv - hv) ltac:(lra)) as [p1 _].
+      assert (rnd (lv - hv) == - rnd (hv - lv)) by (rewrite <- rnd_odd; apply rnd_proper; ring).
+      nra. }
+    assert (Eq : rnd (- value - - lv) / rnd (- hv - - lv) == rnd (value - lv) / rnd (hv - lv)).
+    { rewrite Ea, Eb. field. exact Nb. }
+    assert (Ec : rnd (rnd (- value - - lv) / rnd (- hv - - lv)) == rnd (rnd (value - lv) / rnd (hv - lv))) by (apply rnd_proper; exact Eq).
+    assert (Es : rnd (inject_Z L + rnd (rnd (- value - - lv) / rnd (- hv - - lv))) == s).
+    { unfold s. apply rnd_proper. rewrite Ec. reflexivity. }
+    assert (Er : rnd (rnd (inject_Z L + rnd (rnd (- value - - lv) / rnd (- hv - - lv))) / inject_Z spf) == r).
+    { unfold r. apply rnd_proper. rewrite Es. reflexivity. }
+    assert (Et : (- value - - lv) / (- hv - - lv) == t) by (unfold t; field; lra).
+    rewrite Er, Et in Bd. exact Bd.
+  Qed.
 End Rounding.
